@@ -1,5 +1,6 @@
 import HabuVerif.Proofs.SolverFinal
 import HabuVerif.Props.C13
+import HabuVerif.Proofs.SolverTermination
 /-!
 # C06 — Termination, bounded work, no lost waiter
 
@@ -167,3 +168,16 @@ end HabuVerif.C06.Examples
 #print axioms HabuVerif.C06.present_input_stays_present
 #print axioms HabuVerif.C06.attempt_keeps_refused_and_inputs
 #print axioms HabuVerif.C06.blocked_lines_are_reported
+-- termination and bounded work (Proofs/SolverTermination.lean, builder L)
+#print axioms HabuVerif.solve_terminates
+#print axioms HabuVerif.solve_terminates_any_fuel
+#print axioms HabuVerif.solve_fuel_mono
+#print axioms HabuVerif.attempt_accounting
+#print axioms HabuVerif.wait_multiplicity
+#print axioms HabuVerif.attempt_bound
+#print axioms HabuVerif.attempt_bound_additive
+#print axioms HabuVerif.queued_at_most_once
+#print axioms HabuVerif.pushes_exact
+#print axioms HabuVerif.loads_distinct
+#print axioms HabuVerif.prompt_at_most_once
+#print axioms HabuVerif.Universe.ofOccurs
